@@ -46,6 +46,15 @@ TEMPLATES = {
     "loopfilter_else": "{% for x in items if x > 5 %}{{ x }}{% else %}E{{ f('1') }}{% endfor %}z",
     "loopfilter_nested": "{% for x in items if x != 2 %}{% for y in items if y != x %}{{ y }}{{ f('1') }}{% endfor %}{% endfor %}",
     "loopfilter_block": "{% block a %}{% for x in items if x != 2 %}{{ f('1') }}{% endfor %}{% endblock %}",
+    # filtered loops inside buffered frames (macro, call block, block assignment, filter block)
+    "loopfilter_in_macro": "{% macro m() %}{% for x in items if x != 2 %}{{ x }}{{ f('1') }}{% endfor %}{% endmacro %}[{{ m() }}]{{ f('2') }}",
+    "loopfilter_in_callblock": "{% macro w() %}({{ caller() }}){% endmacro %}{% call w() %}{% for x in items if x != 2 %}{{ x }}{{ f('1') }}{% endfor %}{% endcall %}",
+    "loopfilter_in_setblock": "{% set v %}{% for x in items if x != 2 %}{{ x }}{{ f('1') }}{% endfor %}{% endset %}{{ v }}{{ f('2') }}",
+    "loopfilter_in_filterblock": "{% filter upper %}{% for x in agen(3) if x != 1 %}{{ x }}{{ f('1') }}{% endfor %}{% endfilter %}",
+    "loopfilter_in_macro_break": "{% macro m() %}{% for x in items if x != 9 %}{{ f('1') }}{% if x == 2 %}{% break %}{% endif %}{% endfor %}{% endmacro %}[{{ m() }}]",
+    "loopfilter_with_include": "{% for x in items if x != 2 %}{% include 'inc2' %}{{ f('1') }}{% endfor %}",
+    "loopfilter_with_block": "{% for x in items if x != 2 %}{% block a scoped %}{{ x }}{{ f('1') }}{% endblock %}{% endfor %}",
+    "loopfilter_recursive_in_macro": "{% macro m() %}{% for n in tree if n.v != 9 recursive %}{{ n.v }}{{ f('1') }}{% if n.c %}({{ loop(n.c) }}){% endif %}{% endfor %}{% endmacro %}{{ m() }}",
     "loop_agen": "{% for x in agen(2) %}{{ x }}{{ f('1') }}{% endfor %}z",
     "loop_agen_length": "{% for x in agen(2) %}{{ loop.length }}{{ f('1') }}{% endfor %}",
     "loop_break": "{% for x in items %}{{ f('1') }}{% if x == 2 %}{% break %}{% endif %}{{ x }}{% endfor %}z",
